@@ -3924,8 +3924,21 @@ class PackChunkGenerator:
             else:
                 raw = unpacked.decomp_chunks
             chunks: list[bytes] | Iterator[bytes]
-            if unpacked.comp_chunks is not None and reuse_compressed:
-                chunks = unpacked.comp_chunks
+            if (
+                unpacked.comp_chunks is not None
+                and unpacked.decomp_len is not None
+                and reuse_compressed
+            ):
+                # comp_chunks holds the zlib stream only. The entry header
+                # has to be written here: it carries the delta base, which
+                # depends on where the base ended up in *this* pack.
+                header = pack_object_header(
+                    type_num,
+                    raw[0] if type_num in DELTA_TYPES else None,  # type: ignore[arg-type]
+                    unpacked.decomp_len,
+                    self.object_format,
+                )
+                chunks = chain([bytes(header)], unpacked.comp_chunks)
             else:
                 chunks = pack_object_chunks(
                     type_num,
